@@ -21,6 +21,125 @@ open QM.Text QM.Parse
 inductive LitText : T → Str → Prop
   | int (i : Int) : LitText (.int i) (intText i)
   | bin {bs : List Nat} : (∀ b ∈ bs, b < 256) → LitText (.bin bs) (binText bs)
+  | str (v : Str) : LitText (.str v) (strText v)
+
+/-! string literals -/
+
+theorem escapeSingle_clean (v : Str) : (escapeSingle v).all (fun c => c != '\n' && c != '\r') = true := by
+  induction v with
+  | nil => rfl
+  | cons c v ih =>
+    simp only [escapeSingle]
+    split
+    · simpa using ih
+    split
+    · simpa using ih
+    split
+    · simpa using ih
+    split
+    · simpa using ih
+    split
+    · simpa using ih
+    split
+    · simpa using ih
+    · rename_i h1 h2 h3 h4 h5 h6
+      simp [ih, h4, h5]
+
+/-- the escaped text does not start with a raw quote -/
+theorem escapeSingle_head (v x : Str) : headAll (· ≠ '"') (escapeSingle v ++ x) = true ∨ v = [] := by
+  cases v with
+  | nil => exact .inr rfl
+  | cons c v =>
+    left
+    simp only [escapeSingle]
+    split
+    · rfl
+    split
+    · rfl
+    split
+    · rfl
+    split
+    · rfl
+    split
+    · rfl
+    split
+    · rfl
+    · rename_i h1 h2 h3 h4 h5 h6
+      simp [headAll, h2]
+
+theorem stringSegments_escapeSingle (s rest : List Char) :
+    stringSegments (escapeSingle s ++ '"' :: rest) = .closed s rest := by
+  induction s with
+  | nil => simp [escapeSingle, stringSegments_cons]
+  | cons c s ih =>
+    simp only [escapeSingle]
+    by_cases h1 : c = '\\'
+    · subst h1; simp [stringSegments_cons, singleEscape, ih, SegResult.push]
+    by_cases h2 : c = '"'
+    · subst h2; simp [stringSegments_cons, singleEscape, ih, SegResult.push]
+    by_cases h3 : c = '{'
+    · subst h3; simp [stringSegments_cons, singleEscape, ih, SegResult.push]
+    by_cases h4 : c = '\n'
+    · subst h4; simp [stringSegments_cons, singleEscape, ih, SegResult.push]
+    by_cases h5 : c = '\r'
+    · subst h5; simp [stringSegments_cons, singleEscape, ih, SegResult.push]
+    by_cases h6 : c = '\t'
+    · subst h6; simp [stringSegments_cons, singleEscape, ih, SegResult.push]
+    simp [h1, h2, h3, h4, h5, h6, stringSegments_cons, ih, SegResult.push]
+
+theorem push_closed {d : Char} {x : SegResult} {t rest : List Char} (h : x.push d = .closed t rest) :
+    ∃ t', x = .closed t' rest := by
+  cases x with
+  | closed t' r => simp only [SegResult.push, SegResult.closed.injEq] at h; exact ⟨t', by rw [h.2]⟩
+  | hole t' r => simp [SegResult.push] at h
+  | unterminated => simp [SegResult.push] at h
+  | badEscape => simp [SegResult.push] at h
+
+theorem stringSegments_closed_suffix_aux (n : Nat) : ∀ (cs : List Char), cs.length ≤ n →
+    ∀ t rest, stringSegments cs = .closed t rest → rest <:+ cs := by
+  induction n with
+  | zero =>
+    intro cs h t rest he
+    have : cs = [] := List.eq_nil_of_length_eq_zero (by omega)
+    subst this; simp [stringSegments] at he
+  | succ n ih =>
+    intro cs h t rest he
+    cases cs with
+    | nil => simp [stringSegments] at he
+    | cons c r =>
+      have hr : r.length ≤ n := by simp at h; omega
+      rw [stringSegments_cons] at he
+      split at he
+      · simp only [SegResult.closed.injEq] at he
+        rw [← he.2]; exact List.suffix_cons c r
+      split at he
+      · simp at he
+      split at he
+      · split at he
+        · simp at he
+        · rename_i e rest'
+          split at he
+          · obtain ⟨t', h'⟩ := push_closed he
+            have hr' : rest'.length ≤ n := by simp at hr; omega
+            exact List.IsSuffix.trans (ih rest' hr' t' rest h')
+              (List.IsSuffix.trans (List.suffix_cons e rest') (List.suffix_cons c _))
+          · simp at he
+      · obtain ⟨t', h'⟩ := push_closed he
+        exact List.IsSuffix.trans (ih r hr t' rest h') (List.suffix_cons c r)
+
+theorem stringSegments_closed_suffix (cs t rest : List Char)
+    (h : stringSegments cs = .closed t rest) : rest <:+ cs :=
+  stringSegments_closed_suffix_aux cs.length cs (Nat.le_refl _) t rest h
+
+theorem strText_quoted (v : Str) : quotedAtom (strText v) = true := by
+  have h := escapeSingle_clean v
+  simp only [quotedAtom, strText, List.head?_cons, beq_self_eq_true, Bool.true_and, Bool.and_eq_true]
+  refine ⟨?_, ?_⟩
+  · rw [show '"' :: (escapeSingle v ++ ['"']) = ('"' :: escapeSingle v) ++ ['"'] from rfl,
+      List.getLast?_append]
+    rfl
+  · simp only [List.all_cons, List.all_append, h]
+    decide
 
 theorem hexChar_facts : ∀ k : Fin 16, QM.hexDigit (QM.hexChar k.val) = some k.val ∧
     isWhitespace (QM.hexChar k.val) = false ∧ QM.hexChar k.val ≠ '\x00' := by decide
@@ -61,7 +180,7 @@ theorem digits_nul {ds : Str} (h : ds.all isDigit = true) : ds.all (· ≠ '\x00
   rw [e] at this
   exact absurd this (by decide)
 
-theorem lit_good {t : T} {s : Str} (h : LitText t s) : goodAtom s = true := by
+theorem lit_good {t : T} {s : Str} (h : LitText t s) (hns : ∀ v, t ≠ .str v) : goodAtom s = true := by
   cases h with
   | int i =>
     obtain ⟨h1, h2, _⟩ := natDigits_spec i.natAbs
@@ -76,8 +195,9 @@ theorem lit_good {t : T} {s : Str} (h : LitText t s) : goodAtom s = true := by
     simp only [goodAtom, binText, List.isEmpty_cons, Bool.not_false, Bool.true_and, List.all_cons, this,
       Bool.and_true]
     decide
+  | str v => exact (hns v rfl).elim
 
-theorem lit_nul {t : T} {s : Str} (h : LitText t s) : s.all (· ≠ '\x00') = true := by
+theorem lit_nul {t : T} {s : Str} (h : LitText t s) (hns : ∀ v, t ≠ .str v) : s.all (· ≠ '\x00') = true := by
   cases h with
   | int i =>
     obtain ⟨h1, _, _⟩ := natDigits_spec i.natAbs
@@ -89,16 +209,30 @@ theorem lit_nul {t : T} {s : Str} (h : LitText t s) : s.all (· ≠ '\x00') = tr
     have := hexText_all (p := (· ≠ '\x00')) (fun k => by simp [(hexChar_facts k).2.2]) _ hb
     simp only [binText, List.all_cons, this, Bool.and_true]
     decide
+  | str v => exact (hns v rfl).elim
 
-/-- a literal starts with a digit or `-` -/
+/-- a literal's atom is fine for the line passes -/
+theorem lit_ok {t : T} {s : Str} (h : LitText t s) : okAtom s = true := by
+  cases h with
+  | int i => simp [okAtom, lit_good (.int i) (by intro v e; cases e)]
+  | bin hb => simp [okAtom, lit_good (.bin hb) (by intro v e; cases e)]
+  | str v => simp [okAtom, strText_quoted v]
+
+theorem lit_nulAtom {t : T} {s : Str} (h : LitText t s) : nulAtom s = true := by
+  cases h with
+  | int i => exact nulAtom_of_all (lit_nul (.int i) (by intro v e; cases e))
+  | bin hb => exact nulAtom_of_all (lit_nul (.bin hb) (by intro v e; cases e))
+  | str v => simp [nulAtom, strText]
+
+/-- a literal starts with a digit, `-` or a quote -/
 theorem lit_head {t : T} {s : Str} (h : LitText t s) :
-    ∃ c r, s = c :: r ∧ (isDigit c = true ∨ c = '-') := by
+    ∃ c r, s = c :: r ∧ (isDigit c = true ∨ c = '-' ∨ c = '"') := by
   cases h with
   | int i =>
     obtain ⟨h1, h2, _⟩ := natDigits_spec i.natAbs
     unfold intText
     split
-    · exact ⟨'-', _, rfl, .inr rfl⟩
+    · exact ⟨'-', _, rfl, .inr (.inl rfl)⟩
     · cases hd : Parse.natDigits i.natAbs with
       | nil => exact absurd hd h2
       | cons c r =>
@@ -106,6 +240,7 @@ theorem lit_head {t : T} {s : Str} (h : LitText t s) :
         simp only [List.all_cons, Bool.and_eq_true] at h1
         exact ⟨c, r, rfl, .inl h1.1⟩
   | bin hb => exact ⟨'0', _, rfl, .inl (by decide)⟩
+  | str v => exact ⟨'"', _, rfl, .inr (.inr rfl)⟩
 
 /-! ### 1. Layouts -/
 
@@ -274,6 +409,10 @@ theorem printLoop_term : (t : T) → T.WF t → PrintsAs (termDoc t) (LayP t)
     intro w col i m st
     simp only [termDoc, pl_text]
     exact ⟨[.atom (binText bs)], [.atom (binText bs)], col + (binText bs).length, by simp, rfl, .lit (.bin hwf)⟩
+  | .str v, _ => by
+    intro w col i m st
+    simp only [termDoc, pl_text]
+    exact ⟨[.atom (strText v)], [.atom (strText v)], col + (strText v).length, by simp, rfl, .lit (.str v)⟩
   | .tup name [], hwf => by
     intro w col i m st
     simp only [termDoc, List.isEmpty_nil, if_true, pl_text]
@@ -361,73 +500,71 @@ theorem nul_open {name : Option Str} (hn : optOk isTupleNameStr name) :
 mutual
 theorem layP_tidy : ∀ {t : T} {ps : List Piece}, LayP t ps →
     ∀ (b : Bool) (r : List Piece), tidyPs true r = true → tidyPs b (ps ++ r) = true
-  | _, _, .leaf hn, b, r, hr => by simp [tidyPs, goodAtom_ident hn, hr]
-  | _, _, .lit hl, b, r, hr => by simp [tidyPs, lit_good hl, hr]
-  | _, _, .empty hn, b, r, hr => by simp [tidyPs, good_empty hn, hr]
+  | _, _, .leaf hn, b, r, hr => by simp [tidyPs, okAtom, goodAtom_ident hn, hr]
+  | _, _, .lit hl, b, r, hr => by simp [tidyPs, lit_ok hl, hr]
+  | _, _, .empty hn, b, r, hr => by simp [tidyPs, okAtom, good_empty hn, hr]
   | _, _, .flat hn hi, b, r, hr => by
     have h2 : goodAtom [']'] = true := by decide
-    have := itemsP_tidy hi true (.atom [']'] :: r) (by simp [tidyPs, h2, hr])
-    simpa [tidyPs, good_open hn] using this
+    have := itemsP_tidy hi true (.atom [']'] :: r) (by simp [tidyPs, okAtom, h2, hr])
+    simpa [tidyPs, okAtom, good_open hn] using this
   | _, _, .brk k1 k2 hn hi, b, r, hr => by
     have h2 : goodAtom [']'] = true := by decide
     have h3 : goodAtom [','] = true := by decide
-    have := itemsP_tidy hi false (.atom [','] :: .nl k2 :: .atom [']'] :: r) (by simp [tidyPs, h2, h3, hr])
-    simpa [tidyPs, good_open hn] using this
+    have := itemsP_tidy hi false (.atom [','] :: .nl k2 :: .atom [']'] :: r) (by simp [tidyPs, okAtom, h2, h3, hr])
+    simpa [tidyPs, okAtom, good_open hn] using this
 theorem layF_tidy : ∀ {f : F} {ps : List Piece}, LayF f ps →
     ∀ (b : Bool) (r : List Piece), tidyPs true r = true → tidyPs b (ps ++ r) = true
   | _, _, .unnamed hl, b, r, hr => layP_tidy hl b r hr
   | _, _, .named hn hl, b, r, hr => by
     have := layP_tidy hl false r hr
-    simpa [tidyPs, goodAtom_snoc (goodAtom_ident hn) (show isWhitespace ':' = false by decide)] using this
+    simpa [tidyPs, okAtom, goodAtom_snoc (goodAtom_ident hn) (show isWhitespace ':' = false by decide)] using this
 theorem itemsP_tidy : ∀ {bk : Bool} {fs : List F} {ps : List Piece}, ItemsP bk fs ps →
     ∀ (b : Bool) (r : List Piece), tidyPs true r = true → tidyPs b (ps ++ r) = true
   | _, _, _, .one hl, b, r, hr => layF_tidy hl b r hr
   | _, _, _, .consFlat hl hi, b, r, hr => by
     have h3 : goodAtom [','] = true := by decide
     have h := itemsP_tidy hi false r hr
-    have := layF_tidy hl b (.atom [','] :: .sp :: (_ ++ r)) (by simpa [tidyPs, h3] using h)
+    have := layF_tidy hl b (.atom [','] :: .sp :: (_ ++ r)) (by simpa [tidyPs, okAtom, h3] using h)
     simpa using this
   | _, _, _, .consBrk k hl hi, b, r, hr => by
     have h3 : goodAtom [','] = true := by decide
     have h := itemsP_tidy hi false r hr
-    have := layF_tidy hl b (.atom [','] :: .nl k :: (_ ++ r)) (by simpa [tidyPs, h3] using h)
+    have := layF_tidy hl b (.atom [','] :: .nl k :: (_ ++ r)) (by simpa [tidyPs, okAtom, h3] using h)
     simpa using this
 end
+
+theorem nulAtom_comma : nulAtom [','] = true := by decide
+theorem nulAtom_close : nulAtom [']'] = true := by decide
 
 mutual
 theorem layP_nulFree : ∀ {t : T} {ps : List Piece}, LayP t ps → nulFree ps = true
   | _, _, .leaf hn => by
     simp only [nulFree, Bool.and_eq_true]
-    exact ⟨ident_nulFree hn, trivial⟩
+    exact ⟨nulAtom_of_all (ident_nulFree hn), trivial⟩
   | _, _, .lit hl => by
     simp only [nulFree, Bool.and_eq_true]
-    exact ⟨lit_nul hl, trivial⟩
+    exact ⟨lit_nulAtom hl, trivial⟩
   | _, _, .empty hn => by
     simp only [nulFree, Bool.and_eq_true]
-    exact ⟨nul_empty hn, trivial⟩
+    exact ⟨nulAtom_of_all (nul_empty hn), trivial⟩
   | _, _, .flat hn hi => by
-    have := itemsP_nulFree hi
-    have ho := nul_open hn
-    simp only [List.all_eq_true, decide_eq_true_eq] at ho
-    simpa [nulFree, nulFree_append, this] using ho
+    simp only [nulFree, nulFree_append, itemsP_nulFree hi, nulAtom_of_all (nul_open hn), nulAtom_close,
+      Bool.and_self]
   | _, _, .brk k1 k2 hn hi => by
-    have := itemsP_nulFree hi
-    have ho := nul_open hn
-    simp only [List.all_eq_true, decide_eq_true_eq] at ho
-    simpa [nulFree, nulFree_append, this] using ho
+    simp only [nulFree, nulFree_append, itemsP_nulFree hi, nulAtom_of_all (nul_open hn), nulAtom_close,
+      nulAtom_comma, Bool.and_self]
 theorem layF_nulFree : ∀ {f : F} {ps : List Piece}, LayF f ps → nulFree ps = true
   | _, _, .unnamed hl => layP_nulFree hl
   | _, _, .named hn hl => by
-    have h1 := ident_nulFree hn
-    have h2 := layP_nulFree hl
-    simp only [nulFree, List.all_append, h1, h2]
-    decide
+    have h1 : nulAtom (_ ++ [':']) = true :=
+      nulAtom_of_all (by rw [List.all_append, ident_nulFree hn]; decide)
+    simp only [nulFree, h1, layP_nulFree hl, Bool.and_self]
 theorem itemsP_nulFree : ∀ {bk : Bool} {fs : List F} {ps : List Piece}, ItemsP bk fs ps → nulFree ps = true
   | _, _, _, .one hl => layF_nulFree hl
   | _, _, _, .consFlat hl hi => by
-    simp [nulFree, nulFree_append, layF_nulFree hl, itemsP_nulFree hi]
+    simp only [nulFree, nulFree_append, layF_nulFree hl, itemsP_nulFree hi, nulAtom_comma, Bool.and_self]
   | _, _, _, .consBrk k hl hi => by
-    simp [nulFree, nulFree_append, layF_nulFree hl, itemsP_nulFree hi]
+    simp only [nulFree, nulFree_append, layF_nulFree hl, itemsP_nulFree hi, nulAtom_comma, Bool.and_self]
 end
 
 /-- the text of a layout is what `print` returns for it -/
@@ -449,21 +586,22 @@ theorem post_passes_layP {t : T} {ps : List Piece} (h : LayP t ps) :
 
 /-- how a layout can start: `[`, a lower-case letter (identifier, field label), an upper-case letter
     (tuple name), a digit or `-` (literal) -/
-def headCls (c : Char) : Bool := c == '[' || isLower c || isUpper c || isDigit c || c == '-'
+def headCls (c : Char) : Bool := c == '[' || isLower c || isUpper c || isDigit c || c == '-' || c == '"'
 
 def HeadOk (s : Str) : Prop := ∃ c r, s = c :: r ∧ headCls c = true
 
 /-- none of the characters that matter to the white-space and separator parsers starts a layout -/
-theorem headCls_ne {c : Char} (h : headCls c = true) (d : Char) (hd : d.toNat < 45 ∨ d.toNat = 47) :
-    c ≠ d := by
+theorem headCls_ne {c : Char} (h : headCls c = true) (d : Char)
+    (hd : d.toNat < 34 ∨ d.toNat = 40 ∨ d.toNat = 44 ∨ d.toNat = 47) : c ≠ d := by
   intro e; subst e
   simp only [headCls, Bool.or_eq_true, beq_iff_eq, isLower, isUpper, isDigit, Bool.and_eq_true,
     decide_eq_true_eq] at h
-  rcases h with (((h | h) | h) | h) | h
+  rcases h with ((((h | h) | h) | h) | h) | h
   · subst h; revert hd; decide
   · omega
   · omega
   · omega
+  · subst h; revert hd; decide
   · subst h; revert hd; decide
 
 theorem HeadOk.append {s : Str} (h : HeadOk s) (x : Str) : HeadOk (s ++ x) := by
@@ -496,8 +634,9 @@ theorem layP_head {t : T} {ps : List Piece} (h : LayP t ps) : HeadOk (renderPiec
   | lit hl =>
     obtain ⟨c, r, rfl, hc⟩ := lit_head hl
     refine ⟨c, r ++ [], by simp [renderPieces, Piece.render], ?_⟩
-    rcases hc with hc | rfl
+    rcases hc with hc | rfl | rfl
     · simp [headCls, hc]
+    · decide
     · decide
   | empty hn =>
     rename_i name
@@ -574,7 +713,7 @@ theorem headOk_comma (rest : Str) : headAll (fun c => !isMultispace c && c != '/
     pattern (`(`). -/
 def Stop (rest : Str) : Prop :=
   IdStop rest ∧
-    headAll (fun c => c != '[' && c != ':' && c != '.' && c != '/' && !isHexDigit c) rest = true ∧
+    headAll (fun c => c != '[' && c != ':' && c != '.' && c != '/' && c != '"' && !isHexDigit c) rest = true ∧
     headAll (fun c => c != '(') (rest.dropWhile isMultispace) = true
 
 theorem stop_comma (r : Str) : Stop (',' :: r) := by
@@ -592,7 +731,7 @@ theorem stop_nl : Stop ['\n'] := by
   refine ⟨by simp [IdStop]; decide, by rw [headAll_cons]; decide, by decide⟩
 
 theorem Stop.not {rest : Str} (h : Stop rest) (d : Char)
-    (hd : (d != '[' && d != ':' && d != '.' && d != '/' && !isHexDigit d) = false) :
+    (hd : (d != '[' && d != ':' && d != '.' && d != '/' && d != '"' && !isHexDigit d) = false) :
     headAll (fun c => c != d) rest = true := by
   have := h.2.1
   cases rest with
@@ -648,15 +787,51 @@ theorem sound_binaryP : Sound binaryP := by
 theorem sound_literalP : Sound literalP :=
   Sound.alt (Sound.pmap sound_binaryP) (Sound.pmap sound_integerP)
 
+theorem sound_stringP : Sound stringP := by
+  intro i
+  unfold stringP
+  split
+  · rename_i body
+    split
+    · exact List.suffix_refl _
+    · split
+      · rename_i text rest he
+        exact List.IsSuffix.trans (stringSegments_closed_suffix _ _ _ he) (List.suffix_cons _ _)
+      · exact List.suffix_refl _
+  · exact List.suffix_refl _
+
 theorem termP_sound : ∀ n, Sound (termP n)
   | 0 => fun _ => trivial
   | n + 1 =>
-    Sound.alt sound_literalP
-      (Sound.alt (tupleP_sound (fieldP_sound (termP_sound n))) (Sound.pmap Sound.identifier))
+    Sound.alt sound_stringP (Sound.alt sound_literalP
+      (Sound.alt (tupleP_sound (fieldP_sound (termP_sound n))) (Sound.pmap Sound.identifier)))
+
+/-- `string_term` fails on a text that does not start with a quote -/
+theorem stringP_fails {s : Str} (h : headAll (· ≠ '"') s = true) : Fails stringP s := by
+  refine ⟨s, .char, ?_⟩
+  cases s with
+  | nil => rfl
+  | cons c r =>
+    have : c ≠ '"' := by simpa [headAll] using h
+    unfold stringP
+    split
+    · rename_i body heq
+      exact absurd (List.cons.inj heq).1 this
+    · rfl
+
+theorem notLit_split {s : Str} (h : headAll (fun c => !isDigit c && c != '-' && c != '"') s = true) :
+    headAll (fun c => !isDigit c && c != '-') s = true ∧ headAll (· ≠ '"') s = true := by
+  cases s with
+  | nil => exact ⟨rfl, rfl⟩
+  | cons c r =>
+    simp only [headAll_cons, Bool.and_eq_true, Bool.not_eq_true', bne_iff_ne, ne_eq] at h
+    simp only [headAll_cons, Bool.and_eq_true, Bool.not_eq_true', bne_iff_ne, ne_eq, decide_eq_true_eq]
+    exact ⟨⟨h.1.1, h.1.2⟩, h.2⟩
 
 /-- `literal` fails on a text that starts with neither a digit nor `-` -/
-theorem literalP_fails {s : Str} (h : headAll (fun c => !isDigit c && c != '-') s = true) :
+theorem literalP_fails {s : Str} (h : headAll (fun c => !isDigit c && c != '-' && c != '"') s = true) :
     Fails literalP s := by
+  have h := (notLit_split h).1
   have h0 : headAll (· ≠ '0') s = true := by
     cases s with
     | nil => rfl
@@ -682,29 +857,31 @@ theorem literalP_fails {s : Str} (h : headAll (fun c => !isDigit c && c != '-') 
   exact Fails.bind_ok (opt_of_fails hm) (Fails.pmap hd)
 
 /-- `primary` on a text that is not a literal -/
-theorem termP_notLit {n : Nat} {s : Str} (h : headAll (fun c => !isDigit c && c != '-') s = true) :
+theorem termP_notLit {n : Nat} {s : Str} (h : headAll (fun c => !isDigit c && c != '-' && c != '"') s = true) :
     termP (n + 1) s = alt (tupleP (fieldP (termP n))) (pmap identifier T.leaf) s := by
-  show alt literalP _ s = _
-  exact alt_of_fails (literalP_fails h)
+  show alt stringP (alt literalP _) s = _
+  rw [alt_of_fails (stringP_fails (notLit_split h).2), alt_of_fails (literalP_fails h)]
 
 theorem notLit_lower {c : Char} (h : isLower c = true) (r : Str) :
-    headAll (fun c => !isDigit c && c != '-') (c :: r) = true := by
+    headAll (fun c => !isDigit c && c != '-' && c != '"') (c :: r) = true := by
   have := lower_ne h '-' (by decide)
+  have hq := lower_ne h '"' (by decide)
   simp only [isLower, Bool.and_eq_true, decide_eq_true_eq] at h
   simp only [headAll_cons, isDigit, Bool.and_eq_true, Bool.not_eq_true', Bool.and_eq_false_iff,
     decide_eq_false_iff_not, bne_iff_ne, ne_eq]
-  exact ⟨by omega, this⟩
+  exact ⟨⟨by omega, this⟩, hq⟩
 
 theorem notLit_upper {c : Char} (h : isUpper c = true) (r : Str) :
-    headAll (fun c => !isDigit c && c != '-') (c :: r) = true := by
+    headAll (fun c => !isDigit c && c != '-' && c != '"') (c :: r) = true := by
   have := upper_ne h '-' (by decide)
+  have hq := upper_ne h '"' (by decide)
   simp only [isUpper, Bool.and_eq_true, decide_eq_true_eq] at h
   simp only [headAll_cons, isDigit, Bool.and_eq_true, Bool.not_eq_true', Bool.and_eq_false_iff,
     decide_eq_false_iff_not, bne_iff_ne, ne_eq]
-  exact ⟨by omega, this⟩
+  exact ⟨⟨by omega, this⟩, hq⟩
 
 theorem notLit_ident {n : Str} (h : isIdentStr n = true) (x : Str) :
-    headAll (fun c => !isDigit c && c != '-') (n ++ x) = true := by
+    headAll (fun c => !isDigit c && c != '-' && c != '"') (n ++ x) = true := by
   cases n with
   | nil => simp [isIdentStr] at h
   | cons c r =>
@@ -712,7 +889,7 @@ theorem notLit_ident {n : Str} (h : isIdentStr n = true) (x : Str) :
     exact notLit_lower h.1 _
 
 theorem notLit_tupleName {n : Str} (h : isTupleNameStr n = true) (x : Str) :
-    headAll (fun c => !isDigit c && c != '-') (n ++ x) = true := by
+    headAll (fun c => !isDigit c && c != '-' && c != '"') (n ++ x) = true := by
   cases n with
   | nil => simp [isTupleNameStr] at h
   | cons c r =>
@@ -720,7 +897,7 @@ theorem notLit_tupleName {n : Str} (h : isTupleNameStr n = true) (x : Str) :
     exact notLit_upper h.1 _
 
 theorem notLit_open {name : Option Str} (hn : optOk isTupleNameStr name) (x : Str) :
-    headAll (fun c => !isDigit c && c != '-') (openText name ++ x) = true := by
+    headAll (fun c => !isDigit c && c != '-' && c != '"') (openText name ++ x) = true := by
   cases name with
   | none => simp only [openText, Option.getD_none, List.nil_append, List.cons_append, headAll_cons]; decide
   | some n => simpa [openText] using notLit_tupleName hn ('[' :: x)
@@ -737,13 +914,14 @@ theorem tupleP_fails {field : P F} {s : Str} (h1 : headAll (· ≠ '[') s = true
 
 /-- the term parser fails on a closing bracket -/
 theorem termP_fails_close (n : Nat) (rest : Str) : Fails (termP (n + 1)) (']' :: rest) :=
-  Fails.alt (literalP_fails (by rw [headAll_cons]; decide))
-    (Fails.alt (tupleP_fails (by rw [headAll_cons]; decide) (by rw [headAll_cons]; decide))
-      (Fails.pmap (identifier_fails_of_head (by rw [headAll_cons]; decide))))
+  Fails.alt (stringP_fails (by rw [headAll_cons]; decide))
+    (Fails.alt (literalP_fails (by rw [headAll_cons]; decide))
+      (Fails.alt (tupleP_fails (by rw [headAll_cons]; decide) (by rw [headAll_cons]; decide))
+        (Fails.pmap (identifier_fails_of_head (by rw [headAll_cons]; decide)))))
 
 theorem termP_fails_nil (n : Nat) : Fails (termP (n + 1)) [] :=
-  Fails.alt (literalP_fails rfl)
-    (Fails.alt (tupleP_fails rfl rfl) (Fails.pmap (identifier_fails_of_head rfl)))
+  Fails.alt (stringP_fails rfl) (Fails.alt (literalP_fails rfl)
+    (Fails.alt (tupleP_fails rfl rfl) (Fails.pmap (identifier_fails_of_head rfl))))
 
 theorem fieldP_fails_close (n : Nat) (rest : Str) : Fails (fieldP (termP (n + 1))) (']' :: rest) :=
   Fails.alt (Fails.bind (identifier_fails_of_head (by rw [headAll_cons]; decide)))
@@ -866,10 +1044,11 @@ theorem ptag0x_fails_digits {ds rest : Str} (h : ds.all isDigit = true) (hne : d
       simp [ptag, isPrefix, this]
 
 /-- `literal` reads the text of a literal leaf back -/
-theorem literalP_lit {t : T} {s rest : Str} (h : LitText t s) (hs : Stop rest) :
+theorem literalP_lit {t : T} {s rest : Str} (h : LitText t s) (hns : ∀ v, t ≠ .str v) (hs : Stop rest) :
     literalP (s ++ rest) = .ok t rest := by
   unfold literalP
   cases h with
+  | str v => exact (hns v rfl).elim
   | int i =>
     obtain ⟨h1, h2, h3⟩ := natDigits_spec i.natAbs
     have hx : headAll (· ≠ 'x') rest = true := by
@@ -930,11 +1109,75 @@ theorem lit_ident_fails {t : T} {s : Str} (h : LitText t s) (x : Str) : Fails id
   obtain ⟨c, r, rfl, hc⟩ := lit_head h
   refine identifier_fails_of_head ?_
   rw [List.cons_append, headAll_cons]
-  rcases hc with hc | rfl
+  rcases hc with hc | rfl | rfl
   · simp only [isDigit, isLower, Bool.and_eq_true, decide_eq_true_eq] at hc ⊢
     simp only [Bool.not_eq_true', Bool.and_eq_false_iff, decide_eq_false_iff_not]
     omega
   · decide
+  · decide
+
+theorem startsTripleQuote_false {X : Str} (h : headAll (· ≠ '"') X = true) :
+    startsTripleQuote ('"' :: X) = false := by
+  cases X with
+  | nil => rfl
+  | cons c r =>
+    have : c ≠ '"' := by simpa [headAll] using h
+    unfold startsTripleQuote
+    split
+    · rename_i heq
+      exact absurd (List.cons.inj (List.cons.inj heq).2).1 this
+    · rfl
+
+/-- `string_term` reads a single-line string without holes back -/
+theorem stringP_str (v : Str) {rest : Str} (hs : Stop rest) :
+    stringP (strText v ++ rest) = .ok (.str v) rest := by
+  have hsplit : strText v ++ rest = '"' :: (escapeSingle v ++ '"' :: rest) := by simp [strText]
+  have htq : startsTripleQuote ('"' :: (escapeSingle v ++ '"' :: rest)) = false := by
+    rcases escapeSingle_head v ('"' :: rest) with h | h
+    · exact startsTripleQuote_false h
+    · subst h
+      have hr := hs.not '"' (by decide)
+      simp only [escapeSingle, List.nil_append]
+      cases rest with
+      | nil => rfl
+      | cons c r =>
+        have : c ≠ '"' := by simpa [headAll] using hr
+        unfold startsTripleQuote
+        split
+        · rename_i heq
+          exact absurd (List.cons.inj (List.cons.inj (List.cons.inj heq).2).2).1 this
+        · rfl
+  rw [hsplit]
+  unfold stringP
+  simp only [htq, Bool.false_eq_true, if_false, stringSegments_escapeSingle]
+
+/-- `primary` reads a literal leaf back -/
+theorem termP_lit {t : T} {s rest : Str} (h : LitText t s) (hs : Stop rest) (n : Nat) :
+    termP (n + 1) (s ++ rest) = .ok t rest := by
+  show alt stringP (alt literalP _) _ = _
+  cases h with
+  | int i =>
+    obtain ⟨c, r, hcr, hc⟩ := lit_head (.int i)
+    have hq : headAll (· ≠ '"') (intText i ++ rest) = true := by
+      rw [hcr, List.cons_append, headAll_cons]
+      rcases hc with hc | rfl | rfl
+      · simp only [decide_eq_true_eq]; intro e; subst e; exact absurd hc (by decide)
+      · decide
+      · have := lit_ident_fails (.int i) rest  -- unreachable: an integer does not start with a quote
+        exact absurd hcr (by
+          unfold intText; split
+          · intro e; exact absurd (List.cons.inj e).1 (by decide)
+          · intro e
+            obtain ⟨h1, _, _⟩ := natDigits_spec i.natAbs
+            rw [e] at h1
+            simp only [List.all_cons, Bool.and_eq_true] at h1
+            exact absurd h1.1 (by decide))
+    rw [alt_of_fails (stringP_fails hq)]
+    exact alt_of_ok (literalP_lit (.int i) (by intro v e; cases e) hs)
+  | bin hb =>
+    rw [alt_of_fails (stringP_fails (by simp [binText, headAll]))]
+    exact alt_of_ok (literalP_lit (.bin hb) (by intro v e; cases e) hs)
+  | str v => exact alt_of_ok (stringP_str v hs)
 
 /-- what `items_lay` provides: the first item, then the loop of `separated_list0` over the others -/
 def ItemsRead (n : Nat) (fs : List F) (s rest : Str) : Prop :=
@@ -1024,8 +1267,7 @@ theorem termP_lay : ∀ {t : T} {ps : List Piece}, LayP t ps → ∀ (n : Nat) (
     | zero => omega
     | succ n =>
       simp only [renderPieces, Piece.render, List.append_nil]
-      show alt literalP _ _ = _
-      exact alt_of_ok (literalP_lit hl hstop)
+      exact termP_lit hl hstop n
   | _, _, .empty (name := name) hn, n, rest, hlen, hstop => by
     cases n with
     | zero => omega
